@@ -72,7 +72,9 @@ static void dump_seq(const std::string& cid, Multilevel* ml, const Opts& o) {
 }
 
 static void dump_par(const std::string& cid, ParMultilevel* ml, const Opts& o) {
-    std::ostringstream s; s << ml->num_levels << " " << ml->levels.size() << " " << ml->coarse_n;
+    // coarse_n is only assigned on ranks that own rows of the coarsest operator; elsewhere it is uninitialised and not reported
+    std::ostringstream s; s << ml->num_levels << " " << ml->levels.size() << " "
+        << (ml->levels[ml->levels.size() - 1]->A->local_num_rows ? ml->coarse_n : -1);
     emit_all(cid, "NLEV", s.str());
     {   // duplicate_coarse: sizes / displacements of the ranks that own rows of the coarsest operator
         std::ostringstream c; ParCSRMatrix* Ac = ml->levels[ml->levels.size() - 1]->A;
